@@ -36,6 +36,12 @@ static void emit_mask(const std::string &cell, const MaskStat &s) {
 // ---------------------------------------------------------------- fresh LWE
 static void fresh_lwe(int K) {
     double alphas[] = {ldexp(1., -30), ldexp(1., -25), ldexp(1., -20), ldexp(1., -15), ldexp(1., -10), ldexp(1., -5), 2.44e-5, 7.18e-9, 0.012467};
+    for (double alpha: alphas) {      // the sampler itself
+        Mom m; VH_OP("gaussian32:alpha=%g", alpha);
+        for (int i = 0; i < K; i++) { Torus32 mu = rng.i32(); m.add((double) (int32_t) ((U) gaussian32(mu, alpha) - (U) mu)); out.evaluations++; }
+        char cell[96]; snprintf(cell, sizeof cell, "gaussian32:alpha=2^%.2f", log2(alpha));
+        emit_mom(cell, m, alpha, "trunc-gaussian", 0, J());
+    }
     int ns[] = {1, 8, 500, 630};
     for (int n: ns) {
         LweParams *P = new_LweParams(n, 1e-9, 0.25); LweKey *Kk = new_LweKey(P); lweKeyGen(Kk); LweSample *c = new_LweSample(P);
@@ -55,6 +61,16 @@ static void fresh_lwe(int K) {
             emit_mom(cell, m, alpha, "trunc-gaussian", 0, J().i("n", n));
         }
         char cell[64]; snprintf(cell, sizeof cell, "mask:lwe:n=%d", n); emit_mask(cell, ms);
+        // encryption with a caller-supplied noise value: the phase must be message + dtot32(noise) exactly
+        for (int i = 0; i < 2000; i++) {
+            Torus32 mu = rng.i32(); double noise = (rng.unit() - 0.5) * ldexp(1., -(int) rng.below(30)), alpha = ldexp(1., -(int) (1 + rng.below(30)));
+            VH_OP("lweSymEncryptWithExternalNoise:n=%d", n);
+            lweSymEncryptWithExternalNoise(c, mu, noise, alpha, Kk);
+            out.evaluations++;
+            if (ref_lwe_phase(c, Kk->key, n) != (U) mu + (U) dtot32(noise) || c->current_variance != alpha * alpha)
+                out.viol("noise:external-noise-not-exact", J().i("n", n).d("noise", noise).d("alpha", alpha).u("phase", ref_lwe_phase(c, Kk->key, n)).u("expected", (U) mu + (U) dtot32(noise)));
+        }
+        { char c2[64]; snprintf(c2, sizeof c2, "external-noise:n=%d", n); out.cell(c2, 2000); }
         delete_LweSample(c); delete_LweKey(Kk); delete_LweParams(P);
     }
 }
@@ -84,6 +100,18 @@ static void fresh_tlwe(int k, int samples) {
         emit_mom(cell, m, alpha, "trunc-gaussian", k, J().i("k", k));
     }
     char cell[64]; snprintf(cell, sizeof cell, "mask:tlwe:k=%d", k); emit_mask(cell, ms);
+    { // TGSW encryption of zero: every row is a fresh TLWE encryption of 0; and the uniform polynomial sampler
+        TGswParams *G = new_TGswParams(2, 8, P); TGswKey *GK = new_TGswKey(G); tGswKeyGen(GK); TGswSample *z = new_TGswSample(G);
+        double alpha = ldexp(1., -22); Mom m; MaskStat mu2;
+        for (int rep = 0; rep < (samples + 5) / 6; rep++) {
+            VH_OP("tGswEncryptZero:k=%d", k); tGswEncryptZero(z, alpha, GK);
+            for (int r = 0; r < G->kpl; r++) { ref_tlwe_phase(ph, &z->all_sample[r], GK->tlwe_key.key, N, k); for (int j = 0; j < N; j++) m.add((double) (int32_t) ph[j]); out.evaluations++; }
+            VH_OP("torusPolynomialUniform"); torusPolynomialUniform(msg); for (int j = 0; j < N; j++) mu2.add(msg->coefsT[j]); mu2.break_chain();
+        }
+        char c3[96]; snprintf(c3, sizeof c3, "tgsw-encrypt-zero:k=%d:alpha=2^-22", k); emit_mom(c3, m, alpha, "trunc-gaussian", k, J().i("k", k));
+        snprintf(c3, sizeof c3, "mask:torusPolynomialUniform:k=%d", k); emit_mask(c3, mu2);
+        delete_TGswSample(z); delete_TGswKey(GK); delete_TGswParams(G);
+    }
     delete_TorusPolynomial(msg); delete_TLweSample(c); delete_TLweKey(Kk); delete_TLweParams(P);
 }
 
@@ -177,14 +205,16 @@ static void ks_rows_mode(int n_in, int n_out, double alpha) {
         LweParams *Pin = new_LweParams(ni, alpha, 0.25), *Pout = new_LweParams(n_out, alpha, 0.25);
         LweKey *kin = new_LweKey(Pin), *kout = new_LweKey(Pout); lweKeyGen(kin); lweKeyGen(kout);
         LweKeySwitchKey *ks = new_LweKeySwitchKey(ni, t, bb, Pout);
-        VH_OP("lweCreateKeySwitchKey:n_in=%d:t=%d:basebit=%d", ni, t, bb);
-        lweCreateKeySwitchKey(ks, kin, kout);
+        for (int variant = 0; variant < 2; variant++) {
+        if (variant == 1 && (B < 3 || ni > 16384)) continue;   // the older generator (recentres after encryption): a few layouts
+        VH_OP("%s:n_in=%d:t=%d:basebit=%d", variant ? "lweCreateKeySwitchKey_old" : "lweCreateKeySwitchKey", ni, t, bb);
+        if (variant == 0) lweCreateKeySwitchKey(ks, kin, kout); else lweCreateKeySwitchKey_old(ks, kin, kout);
         Mom m, group; uint64_t bad_h0 = 0;
         for (int i = 0; i < ni; i++) {
             double gs = 0;
             for (int j = 0; j < t; j++) for (int h = 0; h < base; h++) {
                 const LweSample *r = &ks->ks[i][j][h];
-                if (h == 0) { if (ref_lwe_phase(r, kout->key, n_out) != 0) bad_h0++; continue; }
+                if (h == 0) { if (variant == 0 && ref_lwe_phase(r, kout->key, n_out) != 0) bad_h0++; continue; }
                 U msg = (U) kin->key[i] * (U) h * ((U) 1 << (32 - (j + 1) * bb));
                 double e = (double) (int32_t) (ref_lwe_phase(r, kout->key, n_out) - msg);
                 m.add(e); gs += e; out.evaluations++;
@@ -192,9 +222,11 @@ static void ks_rows_mode(int n_in, int n_out, double alpha) {
             group.add(gs);
         }
         if (bad_h0) out.viol("noise:ks-h0-row-not-an-encryption-of-zero", J().i("t", t).i("basebit", bb).u("rows", bad_h0));
-        char cell[96]; snprintf(cell, sizeof cell, "ks-key:t%d.bb%d:n_in=%d", t, bb, ni);
+        char cell[96]; snprintf(cell, sizeof cell, "ks-key%s:t%d.bb%d:n_in=%d", variant ? "-old" : "", t, bb, ni);
         emit_mom(cell, m, alpha, "trunc-gaussian-recentred", 0, J().i("t", t).i("basebit", bb).i("rows_per_source_coefficient", B)
                 .d("group_sum_second_moment", group.s2 / group.n).u("groups", group.n));
+        m = Mom(); group = Mom();
+        }
         delete_LweKeySwitchKey(ks); delete_LweKey(kin); delete_LweKey(kout); delete_LweParams(Pin); delete_LweParams(Pout);
     }
     out.sample(J().s("mode", "ks-rows").i("n_in", n_in).i("n_out", n_out).d("alpha", alpha).s("layouts(t,basebit)", "(1,1),(2,1),(3,1),(1,2),(2,2),(8,2),(4,3),(2,5)"));
